@@ -57,11 +57,20 @@ def decodeDct (dct : Dct) : DecM IVal := do
 mutual
 def decodeDop : (fuel : Nat) → Dop → DecM PVal
   | 0, _ => raise .unmodelled
-  | fuel+1, .simple dct _ cm => do
+  | fuel+1, .simple dct phys cm => do
     let v ← decodeDct dct
     match cm with
     | .identical => pure (.atom v)
     | .other => raise .unmodelled
+    | cm =>
+      -- LINEAR / TEXTTABLE: is_valid_internal_value, convert_internal_to_physical (`dopI2P`)
+      match cm.method? dct.baseType phys with
+      | none => raise .unmodelled
+      | some m => do
+        let r ← dopI2P m v
+        match r with
+        | some p => pure (.atom p)
+        | none => pure .none
   | fuel+1, .struct byteSize ps => do
     let s0 ← getS
     let r ← decodeComposite fuel ps
@@ -130,6 +139,27 @@ def decodeDop : (fuel : Nat) → Dop → DecM PVal
         pure (.pair name v)
     | _ => do odxraise .odx; raise .unmodelled                   -- "Multiplexer keys must be integers"
   | _+1, .unsupported => raise .unmodelled
+  | _+1, .dtc dct phys cm dtcs => do
+    -- `DtcDop.decode_from_pdu`
+    let v ← decodeDct dct
+    match cm.method? dct.baseType phys, toVal? v with
+    | some m, some i =>
+      match m.validI i with
+      | .error _ => raise .unmodelled
+      | .ok false => do odxraise .decode; pure .none               -- "could not convert the coded value"; lenient: `return`
+      | .ok true => do
+        -- (not inside a `try`: a ZeroDivisionError of LINEAR would escape — the model does not follow that, see design_notes/C05.md)
+        let r ← methodI2P .unmodelled m i
+        match r with
+        | some (.int code) => do                                   -- `assert isinstance(trouble_code, int)`
+          let hits := dtcs.filter fun d => d.1 == code
+          odxassert (hits.length < 2)                              -- "Multiple matching DTCs"
+          -- exactly one: that DTC; otherwise "Encountered DTC … which has not been defined" and, in lenient mode, a made-up
+          -- DiagnosticTroubleCode with this trouble code
+          if hits.length ≠ 1 then odxraise .decode
+          pure (.dtc code)
+        | _ => raise .unmodelled
+    | _, _ => raise .unmodelled
 
 def decodeStaticItems (item : Dop) (itemSize : Nat) : (fuel : Nat) → Nat → DecM (List PVal)
   | 0, _ => raise .unmodelled
